@@ -73,7 +73,9 @@ class NumEdit(Edit):
         Return true for allowed characters.
         """
         if len(ch) == 1:
-            if ch.upper() in self._allowed:
+            up = ch.upper()
+            # the upper-cased key must be the same letter ('ſ'.upper() == 'S', 'ﬅ'.upper() == 'ST')
+            if up in self._allowed and ch in {up, up.lower()}:
                 # nothing can be inserted in front of the leading minus
                 return not (self.edit_pos == 0 and self.edit_text[:1] == "-")
 
